@@ -267,6 +267,19 @@ def f_no_fault(c):
     c.expect = ("valid",)
 
 
+def f_deprecated_section(c):
+    """The documented (deprecated) top-level [ariadne-codegen] section is still accepted."""
+    c.raw_config = worlds.toml_dumps(c.cfg).replace("[tool.ariadne-codegen", "[ariadne-codegen")
+    c.expect = ("valid",)
+
+
+def f_comments_boolean(c):
+    """include_comments = false/true: deprecated boolean spelling, still accepted."""
+    c.cfg["include_comments"] = False
+    c.expect = ("valid",)
+f_comments_boolean.applies = "client"
+
+
 def f_header_var_set(c):
     """A resolvable $ENV header next to a local schema: valid, and must not be written back into the configuration."""
     c.cfg["remote_schema_headers"] = {"Authorization": "$SIM_TOKEN_SET", "X-Plain": "v"}
@@ -614,7 +627,8 @@ OP_RULES = ["unknown_field", "leaf_with_selection", "object_without_selection", 
 
 FAULTS: Dict[str, Callable] = {
     "control:no_fault": f_no_fault, "control:unknown_keys": f_unknown_keys, "control:reordered_keys": f_reordered_keys,
-    "control:graphql_comments": f_graphql_comments, "control:header_var_set": f_header_var_set,
+    "control:graphql_comments": f_graphql_comments, "control:header_var_set": f_header_var_set, "control:deprecated_section": f_deprecated_section,
+    "control:comments_boolean": f_comments_boolean,
     "config:no_schema_source": f_no_schema_source, "config:schema_path_missing": f_schema_path_missing,
     "config:queries_path_missing": f_queries_path_missing, "config:queries_path_absent": f_queries_path_absent,
     "config:base_client_file_missing": f_base_client_file_missing, "config:base_client_file_is_dir": f_base_client_file_is_dir,
